@@ -1,5 +1,5 @@
-(* Dictionary keys: the synonym tables of the nine *_from_dict readers (generated once from harness/c12.py ALIASES, which the
-   correspondence check exercises alias by alias on every run) and the key processing of value_processing.process_input_dict_keys. *)
+(* GENERATED on every run by harness/translate_schemas.py from /repo/src/strengths/*.py (ast): the synonym tables of the
+   *_from_dict readers, the keys each reader looks up, the keys each *_to_dict writer emits.  Do not edit. *)
 From Coq Require Import NArith.
 From Verif Require Import Num ReactionText.
 Open Scope N_scope.
@@ -71,7 +71,19 @@ Definition schema_script : schema :=
    [[105; 110; 105; 116; 95; 115; 116; 97; 116; 101; 95; 112; 114; 111; 99; 101; 115; 115; 105; 110; 103]; [105; 110; 105; 116; 32; 115; 116; 97; 116; 101; 32; 112; 114; 111; 99; 101; 115; 115; 105; 110; 103]]   (* init_state_processing | init state processing *);
    [[117; 110; 105; 116; 115]; [117; 110; 105; 116; 115; 95; 115; 121; 115; 116; 101; 109]; [117; 110; 105; 116; 115; 32; 115; 121; 115; 116; 101; 109]; [117]]   (* units | units_system | units system | u *)].
 
-Definition all_schemas : list schema := [schema_species; schema_reaction; schema_network; schema_grid; schema_node; schema_edge; schema_graph; schema_system; schema_script].
+Definition schema_unitssystem : schema :=
+  [[[115; 112; 97; 99; 101]]   (* space *);
+   [[116; 105; 109; 101]]   (* time *);
+   [[113; 117; 97; 110; 116; 105; 116; 121]]   (* quantity *)].
+
+Definition schema_unitsdimensions : schema :=
+  [[[115; 112; 97; 99; 101]]   (* space *);
+   [[116; 105; 109; 101]]   (* time *);
+   [[113; 117; 97; 110; 116; 105; 116; 121]]   (* quantity *)].
+
+Definition schema_unitarray : schema :=
+  [[[118; 97; 108; 117; 101]]   (* value *);
+   [[117; 110; 105; 116; 115]]   (* units *)].
 
 Definition writer_species : list str := [[108; 97; 98; 101; 108]; [68]; [100; 101; 110; 115; 105; 116; 121]; [99; 104; 115; 116; 116]; [117; 110; 105; 116; 115]].   (* label D density chstt units *)
 
@@ -91,4 +103,40 @@ Definition writer_system : list str := [[117; 110; 105; 116; 115]; [110; 101; 11
 
 Definition writer_script : list str := [[115; 121; 115; 116; 101; 109]; [116; 95; 115; 97; 109; 112; 108; 101]; [116; 105; 109; 101; 95; 115; 116; 101; 112]; [116; 95; 109; 97; 120]; [115; 97; 109; 112; 108; 105; 110; 103; 95; 112; 111; 108; 105; 99; 121]; [115; 97; 109; 112; 108; 105; 110; 103; 95; 105; 110; 116; 101; 114; 118; 97; 108]; [114; 110; 103; 95; 115; 101; 101; 100]; [105; 110; 105; 116; 95; 115; 116; 97; 116; 101; 95; 112; 114; 111; 99; 101; 115; 115; 105; 110; 103]; [117; 110; 105; 116; 115]].   (* system t_sample time_step t_max sampling_policy sampling_interval rng_seed init_state_processing units *)
 
-Definition writers_and_readers : list (list str * schema) := [(writer_species, schema_species); (writer_reaction, schema_reaction); (writer_network, schema_network); (writer_grid, schema_grid); (writer_node, schema_node); (writer_edge, schema_edge); (writer_graph, schema_graph); (writer_system, schema_system); (writer_script, schema_script)].
+Definition writer_unitssystem : list str := [[115; 112; 97; 99; 101]; [116; 105; 109; 101]; [113; 117; 97; 110; 116; 105; 116; 121]].   (* space time quantity *)
+
+Definition writer_unitsdimensions : list str := [[115; 112; 97; 99; 101]; [116; 105; 109; 101]; [113; 117; 97; 110; 116; 105; 116; 121]].   (* space time quantity *)
+
+Definition writer_unitarray : list str := [[118; 97; 108; 117; 101]; [117; 110; 105; 116; 115]].   (* value units *)
+
+Definition uses_species : list str := [[108; 97; 98; 101; 108]; [68]; [100; 101; 110; 115; 105; 116; 121]; [99; 104; 115; 116; 116]; [117; 110; 105; 116; 115]].   (* label D density chstt units *)
+
+Definition uses_reaction : list str := [[115; 116; 111; 105; 99; 104; 105; 111; 109; 101; 116; 114; 121]; [108; 97; 98; 101; 108]; [107; 43]; [107; 45]; [117; 110; 105; 116; 115]].   (* stoichiometry label k+ k- units *)
+
+Definition uses_network : list str := [[101; 110; 118; 105; 114; 111; 110; 109; 101; 110; 116; 115]; [117; 110; 105; 116; 115]; [115; 112; 101; 99; 105; 101; 115]; [114; 101; 97; 99; 116; 105; 111; 110; 115]].   (* environments units species reactions *)
+
+Definition uses_grid : list str := [[119]; [104]; [100]; [99; 101; 108; 108; 95; 101; 110; 118]; [99; 101; 108; 108; 95; 118; 111; 108; 117; 109; 101]; [98; 111; 117; 110; 100; 97; 114; 121; 95; 99; 111; 110; 100; 105; 116; 105; 111; 110; 115]; [117; 110; 105; 116; 115]].   (* w h d cell_env cell_volume boundary_conditions units *)
+
+Definition uses_node : list str := [[117; 110; 105; 116; 115]; [118; 111; 108; 117; 109; 101]; [101; 110; 118; 105; 114; 111; 110; 109; 101; 110; 116]].   (* units volume environment *)
+
+Definition uses_edge : list str := [[117; 110; 105; 116; 115]; [115; 117; 114; 102; 97; 99; 101]; [100; 105; 115; 116; 97; 110; 99; 101]; [110; 111; 100; 101; 115]].   (* units surface distance nodes *)
+
+Definition uses_graph : list str := [[117; 110; 105; 116; 115]; [110; 111; 100; 101; 115]; [101; 100; 103; 101; 115]].   (* units nodes edges *)
+
+Definition uses_system : list str := [[117; 110; 105; 116; 115]; [110; 101; 116; 119; 111; 114; 107]; [115; 112; 97; 99; 101]; [115; 116; 97; 116; 101]; [99; 104; 101; 109; 111; 115; 116; 97; 116; 115]].   (* units network space state chemostats *)
+
+Definition uses_script : list str := [[117; 110; 105; 116; 115]; [115; 121; 115; 116; 101; 109]; [116; 95; 115; 97; 109; 112; 108; 101]; [116; 105; 109; 101; 95; 115; 116; 101; 112]; [116; 95; 109; 97; 120]; [115; 97; 109; 112; 108; 105; 110; 103; 95; 112; 111; 108; 105; 99; 121]; [115; 97; 109; 112; 108; 105; 110; 103; 95; 105; 110; 116; 101; 114; 118; 97; 108]; [114; 110; 103; 95; 115; 101; 101; 100]; [105; 110; 105; 116; 95; 115; 116; 97; 116; 101; 95; 112; 114; 111; 99; 101; 115; 115; 105; 110; 103]].   (* units system t_sample time_step t_max sampling_policy sampling_interval rng_seed init_state_processing *)
+
+Definition uses_unitssystem : list str := [[115; 112; 97; 99; 101]; [116; 105; 109; 101]; [113; 117; 97; 110; 116; 105; 116; 121]].   (* space time quantity *)
+
+Definition uses_unitsdimensions : list str := [[115; 112; 97; 99; 101]; [116; 105; 109; 101]; [113; 117; 97; 110; 116; 105; 116; 121]].   (* space time quantity *)
+
+Definition uses_unitarray : list str := [[118; 97; 108; 117; 101]; [117; 110; 105; 116; 115]].   (* value units *)
+
+Definition dispatch_keys : list str := [[116; 121; 112; 101]].   (* read by rdspace_from_dict before a space reader is entered: type *)
+
+Definition all_schemas : list schema := [schema_species; schema_reaction; schema_network; schema_grid; schema_node; schema_edge; schema_graph; schema_system; schema_script; schema_unitssystem; schema_unitsdimensions; schema_unitarray].
+
+Definition writers_and_readers : list (list str * schema) := [(writer_species, schema_species); (writer_reaction, schema_reaction); (writer_network, schema_network); (writer_grid, schema_grid); (writer_node, schema_node); (writer_edge, schema_edge); (writer_graph, schema_graph); (writer_system, schema_system); (writer_script, schema_script); (writer_unitssystem, schema_unitssystem); (writer_unitsdimensions, schema_unitsdimensions); (writer_unitarray, schema_unitarray)].
+
+Definition uses_and_readers : list (list str * schema) := [(uses_species, schema_species); (uses_reaction, schema_reaction); (uses_network, schema_network); (uses_grid, schema_grid); (uses_node, schema_node); (uses_edge, schema_edge); (uses_graph, schema_graph); (uses_system, schema_system); (uses_script, schema_script); (uses_unitssystem, schema_unitssystem); (uses_unitsdimensions, schema_unitsdimensions); (uses_unitarray, schema_unitarray)].
